@@ -146,6 +146,29 @@ class Opaque:
         return "Opaque(%s)" % self.tag
 
 
+class IntStr:
+    """str(<int term>): the decimal text of an integer (compared by value)."""
+
+    def __init__(self, term):
+        self.term = term
+
+    def pyvc_compare(self, E, op, other, st, swapped):
+        import ast as _ast
+        if isinstance(other, IntStr):
+            o = other.term
+        elif isinstance(other, str):
+            try:
+                o = int(other)
+            except ValueError:
+                return [(st, isinstance(op, _ast.NotEq))]
+        else:
+            return [(st, isinstance(op, _ast.NotEq))]
+        if isinstance(op, (_ast.Eq, _ast.NotEq)):
+            r = E.num_cmp(_ast.Eq(), self.term, o)
+            return [(st, r if isinstance(op, _ast.Eq) else z_not(r))]
+        raise OutOfReach("ordering of int strings")
+
+
 class SymNS:
     """A small namespace object with (symbolic) attributes."""
 
